@@ -5,12 +5,15 @@ import LentilVerif.Lemmas.ZernikeRow
 import LentilVerif.Lemmas.ZernikeAngular
 import LentilVerif.Lemmas.ZernikeOrtho
 import LentilVerif.Lemmas.ZernikeDisk
+import LentilVerif.Lemmas.ZernikeBound
+import LentilVerif.Lemmas.ZernikeBoundTable
 /-! # C11 — Zernike modes are the Noll-ordered orthonormal polynomials
 
 Property theorems only. Model: `Model/Zernike.lean` (hand-written, tied to `lentil/zernike.py` by the correspondence harness
 tools/harness/c11.py for every j ≤ 861, every valid (n, m) with n ≤ 40, mode values on dyadic nodes and random masks).
 
-Not proved (named in the harness `UNPROVEN`): `|Z_j| ≤ 1` without normalisation. Orthonormality is proved for n ≤ 20 here
+`|Z_j| ≤ 1` without normalisation is proved for n ≤ 20 (`raw_mode_abs_le_one`; n ≤ 40 in the thorough module) by an exact Chebyshev
+certificate, not for all n. Orthonormality is proved for n ≤ 20 here
 (`zernike_orthonormal`, and as an area mean over the disk `zernike_orthonormal_area`) and for n ≤ 40 in the thorough-tier module
 `Props/C11Thorough.lean`. -/
 namespace Lentil.C11
@@ -467,5 +470,20 @@ theorem raw_mode_le_radial (j : Nat) (ρ θ : ℝ) :
     · simp only [h0, hp, if_false, if_true, Bool.false_eq_true, mul_one]
       rw [abs_mul]
       exact mul_le_of_le_one_right (abs_nonneg _) (Real.abs_sin_le_one _)
+
+/-- **the radial polynomials are bounded by 1 on [−1, 1]** (in particular on the pupil 0 ≤ ρ ≤ 1) for every valid (n, m) with n ≤ 20 — all
+of the first 231 modes. Proof: `2^n R_n^m = Σ_t W_t T_t` with Chebyshev polynomials `T_t(cos θ) = cos tθ` and integer weights `W_t ≥ 0`
+summing to `2^n`; the weights and the coefficient identity are checked exactly by the kernel (`allCheb_20`), the inequality
+`|Σ W_t cos tθ| ≤ Σ W_t` is proved (`radialCheb_sound`). The bound is attained: `R_n^m(1) = 1` (`radial_at_one`). -/
+theorem radial_abs_le_one (n m : Nat) (hn : n ≤ 20) (hm : m ≤ n) (h : (n - m) % 2 = 0) (x : ℝ) (h0 : -1 ≤ x) (h1 : x ≤ 1) :
+    |radialEval n m x| ≤ 1 :=
+  radialCheb_sound n m h (radialCheb_of_all 20 allCheb_20 n m hn hm h) x h0 h1
+
+/-- **without normalisation every mode is bounded by 1 on the unit disk**: `|Z_j(ρ, θ)| ≤ 1` for 0 ≤ ρ ≤ 1, every θ, for the modes with
+radial order n ≤ 20 (j ≤ 231) -/
+theorem raw_mode_abs_le_one (j : Nat) (hj : 1 ≤ j) (hn : nollN j ≤ 20) (ρ θ : ℝ) (h0 : 0 ≤ ρ) (h1 : ρ ≤ 1) :
+    |zernAt (fun k => Real.sqrt k) Real.cos Real.sin j false ρ θ true| ≤ 1 := by
+  obtain ⟨v1, v2, -⟩ := noll_valid j hj
+  exact le_trans (raw_mode_le_radial j ρ θ) (radial_abs_le_one _ _ hn v1 v2 ρ (by linarith) h1)
 
 end Lentil.C11
